@@ -734,7 +734,7 @@ func sortStrings(s []string) {
 // runC19Corpus runs every accepted corpus request of adversarial trees under the CPU limit, and the concrete
 // inputs of the open findings that concern C19.
 func runC19Corpus(run *evid.Run, moq *runner.Moq, work, tier string) {
-	ntrees := 6
+	ntrees := 4
 	if tier == "thorough" {
 		ntrees = 120
 	}
